@@ -71,12 +71,12 @@ def run_gomp(rep, tier, deadline, which):
     if tier == "quick":
         jobs = jobs[:3]
     exes = pmap(_build, jobs, jobs=min(6, len(jobs)))
-    for (name, P, scen, kind, extra), exe in zip(jobs, exes):
+    for (name, P, scn, kind, extra), exe in zip(jobs, exes):
         if isinstance(exe, str) and exe.startswith("ERROR"):
             rep.error(exe)
             continue
         bound = 1 if tier == "quick" else 2
-        vs.explore_all(rep, name, list(range(len(scen))), bound=bound, budget_per_scenario=60 if tier == "quick" else 300, deadline=deadline, exe=exe,
+        vs.explore_all(rep, name, list(range(len(scn))), bound=bound, budget_per_scenario=60 if tier == "quick" else 300, deadline=deadline, exe=exe,
                        extra_replay={"gomp": name})
         rep.cov.setdefault("generated_programs_under_scheduler", []).append(name)
 
